@@ -98,6 +98,9 @@ def generate(rng, tier, idx):
             put(bases[lay], attr, rng.randrange(len(NAMES[attr])), pick(rng, DAMAGES) if rng.random() < 0.3 else None)
         if rng.random() < 0.1:
             ops.append({"op": "cd_open", "path": given, "repeat": 2})
+        elif rng.random() < 0.12:
+            # OTHER Compose objects are opened and read in the same process; what this one has loaded stays its own
+            ops.append({"op": "cd_bystanders", "path": given, "n": rng.randint(1, 3)})
     cfg = {"listdir": pick(rng, ["shuffle", "shuffle", "reverse", "sorted"])}
     if cwd:
         cfg["cwd"] = cwd
